@@ -31,4 +31,22 @@ CHECKS = {
   "note": "Model of make_from_dicts: rows unchanged in order; columns = sorted distinct union of keys, no column meta.",
   "ref": "DESIGN.md section 3 C19",
  },
+ "C03": {
+  "technique": "property-based testing + mutation/grammar-based fuzzing (proptest) with a deterministic fuel oracle for non-termination and child-process containment for stack exhaustion",
+  "level": "Generated-input search: arbitrary bytes, grammar-generated documents, every prefix, mutants, damaged grids, corpus windows, chunked/faulting readers, and a nesting ladder to 131072 in child processes; oracle: every decoder entry point returns Ok or Err (no panic, no fuel exhaustion, no abort, no confirmed hang). Held on everything explored.",
+  "note": "Non-termination is detected by fuel ticks at Scanner::read/Lexer::read (verif-hooks); a loop that never reads would only be seen by the 30 s child-process watchdog of the ladder. Stack limits: the environment's main-thread stack and a 2 MiB thread.",
+  "ref": "DESIGN.md section 3 C03",
+ },
+ "C04": {
+  "technique": "differential property-based testing (proptest) against an independent reference Zinc writer and strict grammar reader written from the specification",
+  "level": "Direction A: libhaystack's output must be a sentence of the grammar (reference reader) denoting the value. Direction B: every legal spelling produced by the reference writer must decode to the value. The reference pair is self-tested first. Held on everything explored.",
+  "note": "Reference = DESIGN.md appendix A; spellings the specification leaves open are never written. Number denotation by Rust's correctly rounded parse; units from unit-gen/units.txt; zones from chrono-tz.",
+  "ref": "DESIGN.md section 3 C04",
+ },
+ "C05": {
+  "technique": "differential property-based testing (proptest) against an independent reference Hayson writer/reader with its own JSON parser",
+  "level": "Direction A: libhaystack's JSON must be read by the strict reference reader (exact _kind and member names) as the same value. Direction B: every member order, optional-member choice and number spelling from the reference writer must decode to the value. Held on everything explored.",
+  "note": "Reference = DESIGN.md appendix B. A dict tag named _kind and a grid meta tag named ver are outside the model of this encoding.",
+  "ref": "DESIGN.md section 3 C05",
+ },
 }
